@@ -19,12 +19,15 @@ def route(case):
     if case.startswith("W "):
         return "radius"
     return "aaa_race" if case.startswith("Sr ") else "aaa"
-# Model variants: "repaired" = /repo HEAD plus ordered per-session delivery of the provider calls (the one finding still
-# open, no patch); "head" = /repo HEAD.  Everything else is fixed in /repo (7e92d8e, e0693a6, d70a5ae, 9b87063, d95fed1,
-# 7faf7f9, 5478db8, 4de5a6b): a regression to any of those matches neither variant and is reported as a VIOLATION.
-VARIANTS = ["repaired", "head"]
-FLAGS = {"repaired": "", "head": "o"}
-SIG = {"o": "start-stop-interim-sent-from-unordered-goroutines"}
+# Model variants v<s><o><l><p><t><q><g> (fix_sent, fix_order, fix_l2stop, fix_prune, fix_l2tp, fix_presend, fix_ghost);
+# "repaired" = v1111111, "head" = v1011011 = /repo HEAD.  Two findings are not repaired in /repo: o (provider calls sent from
+# unordered goroutines; no patch) and t (lifecycle events of PPP-over-L2TP sessions are not decoded;
+# fixes/C09_l2tp_lifecycle.patch).  Everything else is fixed in /repo (7e92d8e, e0693a6, d70a5ae, 9b87063, d95fed1, 7faf7f9,
+# 5478db8, 4de5a6b): a regression to any of those matches no variant and is reported as a VIOLATION.
+VARIANTS = ["repaired", "v1011111", "v1111011", "head"]
+FLAGS = {"repaired": "", "v1011111": "o", "v1111011": "t", "head": "ot"}
+SIG = {"o": "start-stop-interim-sent-from-unordered-goroutines",
+       "t": "handleSessionLifecycle-l2tp-payload-not-decoded"}
 # the model driver receives the implementation's line: for a session whose uint64 cumulative has wrapped (outside the
 # property's domain) the implementation's counter VALUES are taken as they are from that operation on (ocaml: mask_line)
 MODEL_NEEDS_IMPL = True
@@ -68,7 +71,9 @@ ASSUMPTIONS = ["per-session independence: session ids are distinct strings; the 
 
 POOL = [("s7", 7), ("s10", 7), ("s2", 0), ("s3", 11)]
 CROWD = [("s7", 7), ("s10", 7), ("s29", 7), ("s36", 7), ("s47", 7), ("s54", 7), ("s58", 7)]    # one crowded bucket
-IFX = [5, 6, 8, 9]
+# interface / stats-entry indexes: small ones, and ones that differ from 5 only above bit 8 / bit 16 (a key truncated to 8 or 16
+# bits would alias them), and the largest uint32
+IFX = [5, 6, 8, 9, 261, 65541, 4294967295]
 BIG = [2 ** 32 - 1, 2 ** 32, 2 ** 32 + 12345, 2 ** 63, 2 ** 64 - 1, 2 ** 64 - 1000]
 
 
@@ -195,7 +200,7 @@ def gen_one(rng, nops, big, degenerate=False, crowd=False):
     if crowd:
         k = rng.choice([5, 6, 7])
         sess = rng.sample(CROWD, k)
-    tys = [rng.choice("iippgg") for _ in sess]
+    tys = [rng.choice("iippggt") for _ in sess]
     head = ["S", str(k)] + ["%s:%d:%s" % (sid, b, t) for (sid, b), t in zip(sess, tys)]
     pl = Plane(rng, big)
     pl.l2gw = "g" in tys
@@ -301,7 +306,7 @@ def gen_hold(rng):
     """delayed Start goroutines: H,S ; announcements ; ticks / releases while the Start is still on its way ; U"""
     k = rng.choice([1, 1, 2])
     sess = rng.sample(POOL, k)
-    tys = [rng.choice("iipg") for _ in sess]
+    tys = [rng.choice("iipgt") for _ in sess]
     head = ["S", str(k)] + ["%s:%d:%s" % (sid, b, t) for (sid, b), t in zip(sess, tys)]
     pl = Plane(rng, False)
     pl.l2gw = "g" in tys
@@ -341,7 +346,7 @@ def gen_inflight(rng):
     the response (acknowledged or failed) ; suffix.  No second tick of the same bucket and no restart while unanswered."""
     k = rng.choice([1, 1, 2])
     sess = rng.sample(POOL, k)
-    tys = [rng.choice("iipg") for _ in sess]
+    tys = [rng.choice("iipgt") for _ in sess]
     head = ["S", str(k)] + ["%s:%d:%s" % (sid, b, t) for (sid, b), t in zip(sess, tys)]
     pl = Plane(rng, False)
     pl.l2gw = "g" in tys
@@ -419,7 +424,7 @@ def gen_restart_unanswered(rng):
     session is restored / re-announced and reports again - with readings missing, restarted or continuing"""
     k = rng.choice([1, 1, 2])
     sess = rng.sample(POOL, k)
-    tys = [rng.choice("iipg") for _ in sess]
+    tys = [rng.choice("iipgt") for _ in sess]
     head = ["S", str(k)] + ["%s:%d:%s" % (sid, b, t) for (sid, b), t in zip(sess, tys)]
     pl = Plane(rng, False)
     pl.l2gw = "g" in tys
@@ -552,6 +557,15 @@ def gen_cases(rng, tier, budget):
               "S 1 s7:7:i A,0,5 H,I T,7,0,5:1500000:2:2:2 U H,- T,7,0,e X,0,e"]
     cases += ["S 1 s7:7:i A,0,5 H,I T,7,0,5:100:1:1:1 X,0,e U H,- B P,1", "S 1 s7:7:i A,0,5 H,I T,7,1,5:100:1:1:1 X,0,e U H,- B X,0,e",
               "S 1 s7:7:i A,0,5 H,I T,7,0,5:100:1:1:1 X,0,5:300:3:3:3 U", "S 1 s7:7:i A,0,5 H,I T,7,0,5:100:1:1:1 X,0,e A,0,6 U H,- T,7,0,6:5:5:5:5"]
+    # PPP-over-L2TP sessions (LNS): announce, interims, release, repeats, restart + restore
+    cases += ["S 1 s7:7:t A,0,5 T,7,0,5:100:1:1:1+0:9:9:9:9 X,0,5:200:2:2:2 X,0,e",
+              "S 2 s7:7:t s10:7:i A,0,5 A,1,6 T,7,0,5:100:1:1:1+6:50:5:5:5+0:9:9:9:9 X,0,e T,7,0,5:1:1:1:1+6:60:6:6:6 X,1,e",
+              "S 1 s7:7:t A,0,5 A,0,5 T,7,1,5:100:1:1:1 B R,0,5 T,7,0,5:3:1:1:1 X,0,e"]
+    # interface indexes that differ only above bit 8 / bit 16: every session must read its own interface
+    for a_, b_ in ((5, 261), (5, 65541), (261, 65541), (5, 4294967295)):
+        cases.append("S 2 s7:7:i s10:7:p A,0,%d A,1,%d T,7,0,%d:100:1:1:1+%d:7:7:7:7 T,7,0,%d:200:2:2:2+%d:9:9:9:9 X,0,%d:300:3:3:3+%d:11:11:11:11 X,1,%d:300:3:3:3+%d:12:12:12:12"
+                     % (a_, b_, a_, b_, a_, b_, a_, b_, a_, b_))
+        cases.append("S 1 s7:7:g A,0,%d,%d T,7,0,e|%d:100:1+%d:7:1 T,7,0,e|%d:200:2+%d:9:2 X,0,e|%d:300:3+%d:11:3" % (a_, b_, a_, b_, a_, b_, a_, b_))
     # one counter wraps (its true total reaches 2^64) while the other three go on: only that counter is outside the domain
     big = 2 ** 64 - 1
     for q in range(4):
